@@ -145,7 +145,7 @@ Section Uint.
       + destruct (horner_digits (firstn 19 s) 0 Ha) as [Eh _]. rewrite Eh.
         destruct (2 ^ bits <=? _); [right; reflexivity|].
         apply IH.
-        * rewrite skipn_length. destruct s; [congruence|cbn in *; lia].
+        * rewrite skipn_length. destruct s as [|c0 s0]; [congruence|]. cbn [length] in *. lia.
         * rewrite <- Hsplit, all_digits_app, Ha in Hall. exact Hall.
       + rewrite horner_none by exact Ha. left; reflexivity.
   Qed.
